@@ -547,6 +547,81 @@ theorem tracked_recent (A : Arith) (c : Cfg) (hd : 0 < c.d) (pre : List (Nat × 
   have h2 := hfin.2 hadm kb hkb
   exact ⟨kb.2.win, by simpa using h1.2, h2⟩
 
+/-! ### (G) simultaneous arrivals: the budget does not depend on the order -/
+
+/-- bursts on one bucket: with the window just opened and nothing carried over, `n` attempts at the
+    same instant are admitted until the counter reaches the limit and refused from then on -/
+theorem burst_from (A : Arith) (c : Cfg) (hd : 0 < c.d) (t n : Nat) :
+    ∀ j : Nat, runSingle A c (some ⟨t, 0, j⟩) (List.replicate n t)
+      = List.replicate (min (c.limit - j) n) true ++ List.replicate (n - (c.limit - j)) false := by
+  induction n with
+  | zero => intro j; simp [runSingle]
+  | succ n ih =>
+    intro j
+    have hroll : roll c t ⟨t, 0, j⟩ = ⟨t, 0, j⟩ := by
+      unfold roll; simp only [Nat.sub_self]; rw [if_neg (by omega)]
+    simp only [List.replicate_succ, runSingle, step1, Option.getD_some, stepB, hroll, Nat.sub_self]
+    rw [A.fresh hd]
+    by_cases hj : j < c.limit
+    · simp only [hj, decide_true, if_true]
+      rw [ih (j + 1)]
+      have h1 : min (c.limit - j) (n + 1) = min (c.limit - (j + 1)) n + 1 := by omega
+      have h2 : n + 1 - (c.limit - j) = n - (c.limit - (j + 1)) := by omega
+      rw [h1, h2, List.replicate_succ]; rfl
+    · simp only [hj, decide_false, Bool.false_eq_true, if_false]
+      rw [ih j]
+      have h0 : c.limit - j = 0 := by omega
+      simp [h0, List.replicate_succ]
+
+/-- **every schedule of a burst**: when any number of connections of any keys reach the limiter at
+    one instant `t` — in whatever order the runtime serialises them — key `k` is admitted exactly
+    `min limit n_k` times, its first attempts, where `n_k` is the number of its attempts.  The
+    order of arrival among different keys, and the cleanup, change nothing. -/
+theorem burst_order_independent (A : Arith) (c : Cfg) (hd : 0 < c.d) (k t : Nat) (hist : List (Nat × Nat))
+    (hsame : ∀ e ∈ hist, e.2 = t) :
+    decsOf k hist (run A c init hist).2
+      = List.replicate (min c.limit (timesOf k hist).length) true
+        ++ List.replicate ((timesOf k hist).length - c.limit) false := by
+  have hmono : ∀ (h : List (Nat × Nat)) (tm : Nat), tm ≤ t → (∀ e ∈ h, e.2 = t) → MonoFrom tm h := by
+    intro h
+    induction h with
+    | nil => intros; trivial
+    | cons e r ih =>
+      obtain ⟨a, b⟩ := e
+      intro tm htm hs
+      have hb : b = t := hs (a, b) (by simp)
+      subst hb
+      exact ⟨htm, ih b (Nat.le_refl _) (fun e he => hs e (by simp [he]))⟩
+  have htimes : ∀ h : List (Nat × Nat), (∀ e ∈ h, e.2 = t) → timesOf k h = List.replicate (timesOf k h).length t := by
+    intro h
+    induction h with
+    | nil => intro _; simp [timesOf]
+    | cons e r ih =>
+      obtain ⟨a, b⟩ := e
+      intro hs
+      have hb : b = t := hs (a, b) (by simp)
+      have hr := ih (fun e he => hs e (by simp [he]))
+      simp only [timesOf]
+      split
+      · simp only [List.length_cons, List.replicate_succ, hb]; rw [← hr]
+      · exact hr
+  rw [key_independent A c hd k hist (hmono hist 0 (Nat.zero_le _) hsame)]
+  rw [htimes hist hsame]
+  generalize (timesOf k hist).length = n
+  simp only [List.length_replicate]
+  cases n with
+  | zero => simp [runSingle]
+  | succ n =>
+    -- the first attempt creates the bucket `(t, 0, 0)`; from there on `burst_from`
+    have h0 : runSingle A c none (List.replicate (n + 1) t)
+        = runSingle A c (some ⟨t, 0, 0⟩) (List.replicate (n + 1) t) := rfl
+    rw [h0, burst_from A c hd t (n + 1) 0]
+    simp
+
+/-- non-vacuity: two keys interleaved at one instant, limit 2 -/
+example : decsOf 7 [(7, 5), (9, 5), (7, 5), (7, 5), (9, 5)] (run exactArith ⟨10, 2⟩ init [(7, 5), (9, 5), (7, 5), (7, 5), (9, 5)]).2
+    = [true, true, false] := by decide
+
 /-- the exact-rational arithmetic is an instance (so every theorem above applies to the model
     the correspondence check runs) -/
 example : Arith := exactArith
